@@ -190,9 +190,9 @@ func (g *cgraph) census(set map[*ssa.Function]bool, kinds map[string]bool) []cen
 					if callee := com.StaticCallee(); callee != nil && callee.Pkg != nil {
 						p, n := callee.Pkg.Pkg.Path(), callee.Name()
 						switch {
-						case p == "log" && strings.HasPrefix(n, "Panic") && kinds["log.Panic"]:
+						case isLogPkg(p) && strings.HasPrefix(n, "Panic") && kinds["log.Panic"]:
 							out = append(out, censusSite{f, "log.Panic", x.Pos(), "log." + n})
-						case p == "log" && strings.HasPrefix(n, "Fatal") && kinds["log.Fatal"]:
+						case isLogPkg(p) && strings.HasPrefix(n, "Fatal") && kinds["log.Fatal"]:
 							out = append(out, censusSite{f, "log.Fatal", x.Pos(), "log." + n})
 						case p == "os" && n == "Exit" && kinds["os.Exit"]:
 							out = append(out, censusSite{f, "os.Exit", x.Pos(), "os.Exit"})
@@ -210,3 +210,6 @@ func (g *cgraph) census(set map[*ssa.Function]bool, kinds map[string]bool) []cen
 	})
 	return out
 }
+
+// isLogPkg: the standard log package or a drop-in replacement (the repository uses github.com/qiniu/x/log).
+func isLogPkg(path string) bool { return path == "log" || strings.HasSuffix(path, "/log") }
